@@ -87,14 +87,17 @@ def check_shape(ctx, cs):
         return
     if o["op"] == "voxelize":
         gs, ns = o["gs"], o["ns"]
-        small = dict(small, grid_size=gs, sample_size=ns)
-        ctx.count(("voxelize", shape_key(sh), tuple(gs), tuple(ns)), sample={"op": "voxelize", **small, "filled": o["filled"]})
+        cubes = bool(o.get("cubes", False))
+        small = dict(small, grid_size=gs, sample_size=ns, use_cubes=cubes)
+        if cubes:
+            tg = tg + ["use_cubes"]
+        ctx.count(("voxelize", shape_key(sh), tuple(gs), tuple(ns), cubes), sample={"op": "voxelize", **small, "filled": o["filled"]})
         def run():
             if pd == 2:
                 obj.sample_size_u, obj.sample_size_v = ns
             else:
                 obj.sample_size_u, obj.sample_size_v, obj.sample_size_w = ns
-            return voxelize.voxelize(obj, grid_size=tuple(gs))
+            return voxelize.voxelize(obj, grid_size=tuple(gs), use_cubes=True) if cubes else voxelize.voxelize(obj, grid_size=tuple(gs))
         ok, r = _try(ctx, "voxelize.voxelize", tg, small, run)
         if not ok:
             return
@@ -113,15 +116,18 @@ def check_shape(ctx, cs):
         prm = [float(x) for x in frv(o["prm"])]
         small = dict(small, prm=o["prm"])
         ctx.count(("find_ctrlpts", shape_key(sh), tuple(map(tuple, o["prm"]))), sample={"op": "find_ctrlpts", **small, "idx": o["idx"]})
-        ok, r = _try(ctx, "operations.find_ctrlpts", tg, small, lambda: operations.find_ctrlpts(obj, *prm))
-        if ok:
-            got = [list(p) for p in r] if pd == 1 else [list(p) for row in r for p in row]
-            # spec gives the SET of active flat indices; the code returns points in (u outer, v inner) order = increasing flat index
-            idxs = o["idx"]
-            un = [list(obj.ctrlpts[i]) for i in idxs]
-            wt = [list(obj.ctrlptsw[i]) for i in idxs] if sh["rat"] else un
-            if not (close_seq(got, un) or close_seq(got, wt)):
-                ctx.violate("operations.find_ctrlpts", tg, small, {"expected_indices": idxs, "got": got[:4]})
+        from geomdl import helpers
+        for sname, kw in (("default", {}), ("binsearch", {"find_span_func": helpers.find_span_binsearch})):
+            t2 = tg + (["find_span_func=" + sname] if kw else [])
+            ok, r = _try(ctx, "operations.find_ctrlpts", t2, small, lambda: operations.find_ctrlpts(obj, *prm, **kw))
+            if ok:
+                got = [list(p) for p in r] if pd == 1 else [list(p) for row in r for p in row]
+                # spec gives the SET of active flat indices; the code returns points in (u outer, v inner) order = increasing flat index
+                idxs = o["idx"]
+                un = [list(obj.ctrlpts[i]) for i in idxs]
+                wt = [list(obj.ctrlptsw[i]) for i in idxs] if sh["rat"] else un
+                if not (close_seq(got, un) or close_seq(got, wt)):
+                    ctx.violate("operations.find_ctrlpts", t2, small, {"expected_indices": idxs, "got": got[:4]})
 
 
 THEOREMS = ["T_Ray: reported parameters give coinciding points on both rays (exact)", "T_Ray2D: planar rays never skew", "T_Hull: monotone chain output is a strictly "
